@@ -11,6 +11,7 @@ import os
 import random
 import re
 import sys
+import zlib
 from concurrent.futures import ThreadPoolExecutor
 
 sys.path.insert(0, os.path.dirname(os.path.abspath(__file__)))
@@ -173,7 +174,7 @@ def gen_value(rng):
 
 def gen_jstring(rng):
     pool = ["a", "b", "name", "x y", "}", "{", ")", "(", ",", "})", "}) ", "({[", "]})", ":", "@", "é", "日本", "😀",
-            "it's", 'say "hi"', "\\", "/", "//", "/*", "*/", "read:users", "0", " "]
+            "it's", 'say "hi"', "\\", "/", "//", "/*", "*/", "read:users", "0", " ", "B", "Id", "URL"]
     return "".join(rng.choice(pool) for _ in range(rng.choice([0, 1, 1, 2, 3])))
 
 
@@ -193,13 +194,38 @@ def gen_jvalue(rng, depth):
     return gen_jobject(rng, depth - 1)
 
 
+KEYS = ["name", "scopes", "validate", "a", "b", "k_1", "$x", "x y", "}", "})", "é", "if",
+        # property names are case sensitive: the object is kept as written
+        "maxAge", "Name", "NAME", "X", "x", "A", "Content-Type", "content-type", "isOK", "K_1", "É", "Scopes"]
+
+
+def case_variant(rng, key):
+    """A different key that equals [key] up to letter case (None when there is none)."""
+    alts = {key.upper(), key.lower(), key.swapcase(), key.capitalize(), key.title()} - {key}
+    return rng.choice(sorted(alts)) if alts else None
+
+
 def gen_jobject(rng, depth):
     o = {}
     for _ in range(rng.choice([0, 1, 1, 2, 2, 3])):
-        key = rng.choice(["name", "scopes", "validate", "a", "b", "k_1", "$x", "x y", "}", "})", "é", "if"]) \
-            if rng.random() < 0.8 else gen_jstring(rng)
+        key = rng.choice(KEYS) if rng.random() < 0.8 else gen_jstring(rng)
         o[key] = gen_jvalue(rng, depth)
+        if rng.random() < 0.12:
+            # two keys that differ in letter case only are two properties
+            k2 = case_variant(rng, key)
+            if k2 is not None:
+                o[k2] = gen_jvalue(rng, min(depth, 1))
     return o
+
+
+def j5_plain(v):
+    """A plain JSON5 rendering (shrinking)."""
+    if isinstance(v, dict):
+        return "{" + ", ".join((k if IDENT.match(k) else json.dumps(k, ensure_ascii=False)) + ": " + j5_plain(e)
+                               for k, e in v.items()) + "}"
+    if isinstance(v, list):
+        return "[" + ", ".join(j5_plain(e) for e in v) + "]"
+    return json.dumps(v, ensure_ascii=False)
 
 
 IDENT = re.compile(r"^[A-Za-z_$][A-Za-z0-9_$]*$")
@@ -389,8 +415,78 @@ def gen_other(rng):
     return {"kind": "other", "raw": raw}
 
 
+def source_clean(b):
+    """Bytes that may stand inside a general comment of a Go source text and come back unchanged."""
+    return b.replace(b"*/", b"*|").replace(b"\r", b" ").replace(b"\x00", b" ")
+
+
+GC_ONE = ["/**/", "/* */", "/* text */", "/*text*/", "/* @Route(/x) */", "/*// @Method(GET)*/", "/* // @Description no */",
+          "/* a }) b */", "/** doc **/", "/* résumé 日本 */", "/*@Name*/", "/* @Name(a, {x:1}) d */", "/*\t*/", "/* * */"]
+
+
+def gen_gcomment(rng, multi=None):
+    """A general comment /* ... */ as go/ast hands it over: ONE comment of the list whatever it contains
+    (line feeds, lines that look like annotations); it is free text and never an attribute."""
+    if multi is None:
+        multi = rng.random() < 0.55
+    if not multi:
+        if rng.random() < 0.6:
+            return rng.choice(GC_ONE).encode()
+        return b"/*" + source_clean(gen_annot(rng)["raw"].replace(b"\n", b" ")) + rng.choice([b"*/", b" */"])
+    lines = []
+    for _ in range(rng.choice([1, 1, 2, 2, 3, 4])):
+        r = rng.random()
+        if r < 0.35:
+            lines.append(rng.choice([b"Lists the widgets.", b"ordered by time", "résumé (x)".encode(), b"", b" ", b"  indented",
+                                     b"see @Route", b"TODO: }) later"]))
+        elif r < 0.6:
+            lines.append(rng.choice([b"// @Description not a description", b"// @Method(GET)", b"// @Route(/inside)",
+                                     b"@Query(a) b", b"// @Hidden", b"// plain"]))
+        elif r < 0.8:
+            lines.append(gen_annot(rng)["raw"].replace(b"\n", b" "))
+        else:
+            lines.append(b" * " + rng.choice([b"starred", b"@Route(/x)", b"", b"// @Tag(t)"]))
+    style = rng.random()
+    if style < 0.5:
+        raw = b"/*\n" + b"\n".join(lines) + b"\n*/"
+    elif style < 0.8:
+        raw = b"/* " + b"\n".join(lines) + b" */"
+    else:
+        raw = b"/*" + b"\n".join(lines) + b"\n\n */"
+    return b"/*" + source_clean(raw[2:-2]) + b"*/"
+
+
+def gen_cblock(rng):
+    """Blocks with general comments among the lines, mostly in the leading free-text run (where
+    GetDescription reads them) and followed by more free text; now and then the next comment stands on
+    the line on which the general comment ends."""
+    items = []
+    for _ in range(rng.choice([1, 1, 2, 2, 3, 4])):
+        if rng.random() < 0.5:
+            items.append(classify_raw(gen_gcomment(rng)))
+        else:
+            items.append(classify_raw(rng.choice([b"//", b"// ", b"// lead text", "// résumé (x)".encode(), b"//  two",
+                                                  b"// Archived widgets are left out."])))
+    for _ in range(rng.choice([0, 1, 2, 3, 5])):
+        r = rng.random()
+        if r < 0.45:
+            items.append(gen_annot(rng))
+        elif r < 0.7:
+            items.append(classify_raw(gen_gcomment(rng)))
+        else:
+            items.append(gen_free(rng))
+    if rng.random() < 0.3:
+        rng.shuffle(items)
+    for k in range(1, len(items)):
+        if items[k - 1]["raw"].startswith(b"/*") and items[k]["raw"][:2] in (b"//", b"/*") and rng.random() < 0.2:
+            items[k] = dict(items[k], join=True)
+    return items
+
+
 def gen_block(rng, kind):
-    """kind: line (one annotation), free1, block, malformed, f7, other"""
+    """kind: line (one annotation), free1, block, malformed, f7, other, cblock (general comments)"""
+    if kind == "cblock":
+        return gen_cblock(rng)
     if kind == "line":
         return [gen_annot(rng)]
     if kind == "free1":
@@ -422,6 +518,62 @@ def oracle_applicable(block):
     return all(it["kind"] != "other" for it in block)
 
 
+def lead_multiline(block):
+    """A multi-line general comment inside the leading free-text run, non-empty free text after it."""
+    seen = False
+    for it in block:
+        if it["kind"] != "free":
+            return False
+        if seen and free_value(it["raw"]):
+            return True
+        if it["raw"].startswith(b"/*") and b"\n" in it["raw"]:
+            seen = True
+    return False
+
+
+def key_stats(blocks):
+    objs = [it["jval"] for b in blocks for it in b if it["kind"] == "annot" and isinstance(it.get("jval"), dict)]
+    return {"objects": len(objs),
+            "with_an_upper_case_letter_in_a_top_level_key": sum(1 for o in objs if any(k != k.lower() for k in o)),
+            "with_two_top_level_keys_equal_up_to_case": sum(1 for o in objs if len({k.lower() for k in o}) < len(o)),
+            "with_an_upper_case_letter_in_a_nested_key": sum(1 for o in objs if any(nested_upper(e) for e in o.values()))}
+
+
+def nested_upper(v):
+    if isinstance(v, dict):
+        return any(k != k.lower() or nested_upper(e) for k, e in v.items())
+    return isinstance(v, list) and any(nested_upper(e) for e in v)
+
+
+DECLS = ["func", "func", "type", "field", "const"]
+
+
+def comment_in_source(raw):
+    """The bytes are one comment of a Go source text and go/scanner hands them back unchanged."""
+    try:
+        t = raw.decode("utf-8")
+    except UnicodeDecodeError:
+        return False
+    if "\x00" in t or "\r" in t or "\ufeff" in t:
+        return False
+    if raw.startswith(b"//"):
+        return b"\n" not in raw
+    return len(raw) >= 4 and raw.startswith(b"/*") and raw.find(b"*/", 2) == len(raw) - 2
+
+
+def source_spec(block):
+    """How the block is written as the doc comment of a declaration (None: it cannot be - e.g. text with
+    leading white space, which go/ast never hands over)."""
+    if not all(comment_in_source(it["raw"]) for it in block):
+        return None
+    joins = [bool(it.get("join")) for it in block]
+    for k, j in enumerate(joins):
+        if j and (k == 0 or not block[k - 1]["raw"].startswith(b"/*")):
+            return None          # only a general comment leaves room on its line
+    decl = DECLS[zlib.crc32(b"\x00".join(it["raw"] for it in block)) % len(DECLS)]
+    return {"joins": joins, "decl": decl}
+
+
 # ------------------------------------------------------------------ evaluation
 
 HEADER = """From Gleece Require Import Base.Bytes Model.Annot.
@@ -430,23 +582,40 @@ Definition A raw n v j d := IAnnot raw n v j d.
 Definition F raw := IFree raw.
 Definition OA n v p d := {| o_name := n; o_value := v; o_props := p; o_descr := d |}.
 Definition OB e a f d := {| ob_err := e; ob_attrs := a; ob_frees := f; ob_description := d |}.
-Definition case := (nat * (list item + list str) * obs)%type.
+(* id, what was written, the holder of the hand-built comment list, the holder of the comment block that
+   go/parser + gast.MapDocListToCommentBlock give for the same comments written in a source text *)
+Definition case := (nat * (list item + list str) * obs * option obs)%type.
+Definition cid (c : case) : nat := fst (fst (fst c)).
+Definition inp (c : case) := snd (fst (fst c)).
+Definition hand (c : case) : obs := snd (fst c).
+Definition parsed (c : case) : option obs := snd c.
 Definition lines_of (c : case) : list str :=
-  match snd (fst c) with inl its => map item_raw its | inr ls => ls end.
-Definition cid (c : case) : nat := fst (fst c).
+  match inp c with inl its => map item_raw its | inr ls => ls end.
 """
 
-FOOTER = """Definition agrees (c : case) : bool := obs_eqb (model_obs tbl (lines_of c)) (snd c).
-Definition holds (c : case) : bool :=
-  match snd (fst c) with inl its => prop_C16 its (snd c) | inr _ => true end.
+FOOTER = """Definition on_parsed (c : case) (f : obs -> bool) : bool :=
+  match parsed c with Some o => f o | None => true end.
+Record verdict := { v_id : nat; v_agree : bool; v_pagree : bool; v_holds : bool; v_pholds : bool }.
+Definition judge (c : case) : verdict :=
+  let m := model_obs tbl (lines_of c) in
+  {| v_id := cid c;
+     v_agree := obs_eqb m (hand c);
+     v_pagree := on_parsed c (obs_eqb m);
+     v_holds := match inp c with inl its => prop_C16 its (hand c) | inr _ => true end;
+     v_pholds := match inp c with inl its => on_parsed c (prop_C16 its) | inr _ => true end |}.
 Definition wfgen (c : case) : bool :=
-  match snd (fst c) with inl its => forallb wf_item its | inr _ => true end.
-Definition disagree := Eval vm_compute in map cid (filter (fun c => negb (agrees c)) cases).
-Definition propfail := Eval vm_compute in map cid (filter (fun c => negb (holds c)) cases).
+  match inp c with inl its => forallb wf_item its | inr _ => true end.
+Definition verdicts := Eval vm_compute in map judge cases.
+Definition disagree := Eval vm_compute in map v_id (filter (fun v => negb (v_agree v)) verdicts).
+Definition pdisagree := Eval vm_compute in map v_id (filter (fun v => negb (v_pagree v)) verdicts).
+Definition propfail := Eval vm_compute in map v_id (filter (fun v => negb (v_holds v)) verdicts).
+Definition ppropfail := Eval vm_compute in map v_id (filter (fun v => negb (v_pholds v)) verdicts).
 Definition wffail := Eval vm_compute in map cid (filter (fun c => negb (wfgen c)) cases).
 Definition tags := Eval vm_compute in flat_map (fun c => map branch_tag (lines_of c)) cases.
 Print disagree.
+Print pdisagree.
 Print propfail.
+Print ppropfail.
 Print wffail.
 Print tags.
 """
@@ -460,19 +629,35 @@ def unhex(h):
     return bytes.fromhex(h)
 
 
+def obs_of(o):
+    return {"err": o["err"], "errmsg": o.get("errmsg", ""),
+            "attrs": [(unhex(a["name"]), unhex(a["value"]),
+                       None if a["props"] is None else unhex(a["props"]), unhex(a["descr"]))
+                      for a in o["attrs"]],
+            "frees": [(f["index"], unhex(f["value"])) for f in o["frees"]],
+            "description": unhex(o["description"])}
+
+
 def run_impl(blocks, j5texts):
+    """Returns (hand-built path, parsed-source path (None where not applicable, {"skip":..} where the
+    parser did not give the comments back), json5 answers)."""
     out = implrun("annot", {"blocks": [[hexs(it["raw"]) for it in b] for b in blocks],
-                            "json5": [hexs(t) for t in j5texts]})
-    obs = []
-    for o in out["blocks"]:
-        obs.append({"err": o["err"], "errmsg": o.get("errmsg", ""),
-                    "attrs": [(unhex(a["name"]), unhex(a["value"]),
-                               None if a["props"] is None else unhex(a["props"]), unhex(a["descr"]))
-                              for a in o["attrs"]],
-                    "frees": [(f["index"], unhex(f["value"])) for f in o["frees"]],
-                    "description": unhex(o["description"])})
+                            "json5": [hexs(t) for t in j5texts],
+                            "source": [source_spec(b) for b in blocks]})
+    obs = [obs_of(o) for o in out["blocks"]]
+    parsed = []
+    for o in out["parsed"]:
+        if o is None:
+            parsed.append(None)
+        elif o.get("skip"):
+            parsed.append({"skip": o["skip"], "source": unhex(o.get("source", ""))})
+        else:
+            po = obs_of(o)
+            po["source"] = unhex(o.get("source", ""))
+            po["lines"] = o.get("lines") or []
+            parsed.append(po)
     j5 = [None if x is None else unhex(x) for x in out["json5"]]
-    return obs, j5
+    return obs, parsed, j5
 
 
 def coq_opt(x, f):
@@ -497,7 +682,8 @@ def coq_obs(o):
 
 
 def evaluate(blocks, tag="cases"):
-    """Returns dict(impl, disagree, propfail, wffail, tags, j5ans)."""
+    """Returns dict(impl, parsed, disagree, propfail, wffail, tags, j5ans, path).  disagree / propfail name
+    the blocks that fail on either path; path[i] says on which ("hand-built", "parsed-source")."""
     # JSON5 texts the oracle has to answer for: what the generator wrote, and what the model's matcher
     # takes as group 3 (a Python port computes it; a text the Coq model asks for and the table lacks
     # becomes a marker no implementation output equals, i.e. a disagreement, never a silent pass)
@@ -510,9 +696,10 @@ def evaluate(blocks, tag="cases"):
             if g and g["json"] is not None:
                 texts[g["json"]] = None
     tl = list(texts)
-    impl, j5 = run_impl(blocks, tl)
+    impl, parsed, j5 = run_impl(blocks, tl)
     j5ans = dict(zip(tl, j5))
-    res = dict(impl=impl, disagree=[], propfail=[], wffail=[], tags=[], j5ans=j5ans)
+    res = dict(impl=impl, parsed=parsed, disagree=[], propfail=[], wffail=[], tags=[], j5ans=j5ans, path={},
+               skipped=[i for i, p in enumerate(parsed) if p is not None and "skip" in p])
     SH = 300
     jobs = []
     for lo in range(0, len(blocks), SH):
@@ -532,7 +719,9 @@ def evaluate(blocks, tag="cases"):
                 body = "inl " + coq_list([coq_item(it, j5ans) for it in blocks[i]])
             else:
                 body = "inr " + coq_list([coq_bytes(it["raw"]) for it in blocks[i]])
-            cs.append("(%d, %s, %s)" % (i, body, coq_obs(impl[i])))
+            po = parsed[i]
+            cs.append("(%d, %s, %s, %s)" % (i, body, coq_obs(impl[i]),
+                                            "None" if po is None or "skip" in po else "(Some %s)" % coq_obs(po)))
         text = HEADER + "Definition tbl : list (str * option str) :=\n " + tbl + ".\n" + \
             "Definition cases : list case :=\n [" + ";\n  ".join(cs) + "].\n" + FOOTER
         jobs.append(("%s_%d" % (tag, lo), text))
@@ -540,10 +729,16 @@ def evaluate(blocks, tag="cases"):
     with ThreadPoolExecutor(max_workers=min(6, max(1, len(jobs)))) as ex:
         outs = list(ex.map(lambda j: run_coq_file(PROP, j[0], j[1]), jobs))
     for out in outs:
-        res["disagree"] += parse_nat_list(out, "disagree")
-        res["propfail"] += parse_nat_list(out, "propfail")
+        for key, name, path in [("disagree", "disagree", "hand-built"), ("disagree", "pdisagree", "parsed-source"),
+                                ("propfail", "propfail", "hand-built"), ("propfail", "ppropfail", "parsed-source")]:
+            for i in parse_nat_list(out, name):
+                if i not in res[key]:
+                    res[key].append(i)
+                res["path"].setdefault((key, i), []).append(path)
         res["wffail"] += parse_nat_list(out, "wffail")
         res["tags"] += parse_nat_list(out, "tags")
+    res["disagree"].sort()
+    res["propfail"].sort()
     return res
 
 
@@ -551,6 +746,8 @@ def show_block(block):
     out = []
     for it in block:
         e = {"kind": it["kind"], "raw": it["raw"].decode("utf-8", "backslashreplace"), "raw_hex": hexs(it["raw"])}
+        if it.get("join"):
+            e["same_source_line_as_previous_comment"] = True
         if it["kind"] == "annot":
             e.update(name=it["n"].decode(), value=it["v"].decode("utf-8", "backslashreplace"),
                      json5=None if it["j"] is None else it["j"].decode("utf-8", "backslashreplace"),
@@ -578,7 +775,21 @@ def block_from_replay(rp):
             items[-1]["f7"] = bool(items[-1]["j"] is not None and false_close(items[-1]["d"]))
         else:
             items.append(classify_raw(raw) if e["kind"] != "other" else {"kind": "other", "raw": raw})
+        if e.get("same_source_line_as_previous_comment"):
+            items[-1]["join"] = True
     return items
+
+
+def show_parsed(p):
+    """The parsed-source path of one block, for a replay."""
+    if p is None:
+        return None
+    if "skip" in p:
+        return {"skipped": p["skip"], "go_source": p["source"].decode("utf-8", "backslashreplace")}
+    o = show_obs(p)
+    o["go_source"] = p["source"].decode("utf-8", "backslashreplace")
+    o["source_line_of_each_comment"] = p["lines"]
+    return o
 
 
 # ------------------------------------------------------------------ shrinking
@@ -603,6 +814,18 @@ def simpler_items(it):
             out.append(annot_item(rr, n, v, None, d, fancy=False))
             out.append(annot_item(rr, n, v, b"{}", d, fancy=False))
             out.append(annot_item(rr, n, v, b"{a:1}", d, fancy=False))
+            jv = it.get("jval")
+            if isinstance(jv, dict):
+                # smaller objects: one key less, one key alone, scalar values; then the same object spelled plainly
+                subs = [{k: e for k, e in jv.items() if k != drop} for drop in jv] if len(jv) > 1 else []
+                subs += [{k: jv[k]} for k in jv] if len(jv) > 1 else []
+                subs += [dict(jv, **{k: 1}) for k in jv if isinstance(jv[k], (dict, list, str)) and jv[k] != 1]
+                subs.append(jv)
+                for sub in subs:
+                    c = annot_item(rr, n, v, j5_plain(sub).encode(), d, fancy=False)
+                    if c["raw"] != it["raw"] and b"\n" not in c["j"]:
+                        c["jval"] = sub
+                        out.append(c)
         if v and j is None:
             out.append(annot_item(rr, n, b"", None, d, fancy=False))
         if len(v) > 1:
@@ -612,8 +835,15 @@ def simpler_items(it):
             out.append(annot_item(rr, b"A", v, j, d, fancy=False))
         for o in out:
             o["f7"] = bool(o["j"] is not None and false_close(o["d"]))
+            if o["j"] == j and "jval" in it:
+                o["jval"] = it["jval"]
     else:
         raw = it["raw"]
+        if raw.startswith(b"/*"):
+            # a general comment: the smallest ones of its kind first
+            for cand in ([b"/*\n*/", b"/*\na\n*/"] if b"\n" in raw else []) + [b"/**/", b"// a", b"//"]:
+                if cand != raw and len(cand) < len(raw):
+                    out.append(classify_raw(cand))
         L = len(raw)
         step = max(1, L // 4)
         while step >= 1:
@@ -651,6 +881,10 @@ def shrink(block, fails_many):
 
 # ------------------------------------------------------------------ main
 
+PATHS = {"hand-built": "annotations.NewAnnotationHolder on a hand-built gast.CommentBlock (Index = position in the list)",
+         "parsed-source": "the comments written as the doc comment of a declaration, go/parser, "
+                          "gast.MapDocListToCommentBlock / GetCommentsFromNode, annotations.NewAnnotationHolder"}
+
 F7_TITLE = "a description containing a later '})' makes the greedy JSON5 group over-capture"
 
 
@@ -686,7 +920,7 @@ def main():
         blocks, kinds, ncorpus = [block_from_replay(json.load(open(a.replay)))], ["replay"], 0
     else:
         scale = 1 if a.tier == "quick" else 20
-        plan = [("line", 440), ("free1", 160), ("block", 300), ("malformed", 80), ("other", 120)]
+        plan = [("line", 440), ("free1", 160), ("block", 300), ("malformed", 80), ("other", 120), ("cblock", 200)]
         for kind, n in plan:
             for _ in range(n * scale):
                 blocks.append(gen_block(rng, kind))
@@ -702,8 +936,26 @@ def main():
         blocks[-1][0]["f7"] = False
         kinds.append("line")
 
+        # the shapes of the parsed-source path, written out: a general comment is one entry of the list
+        # whatever it spans, free text, and what follows it still belongs to the leading free-text run
+        F_ = lambda t, **kw: dict(classify_raw(t.encode()), **kw)
+        for fixed in [
+            [F_("/*\nListWidgets returns every widget.\nOrdered by creation time.\n*/"), F_("// Archived widgets are left out."),
+             annot_item(rng, b"Method", b"GET", None, b"", fancy=False)],
+            [F_("/* one line */"), F_("// after"), F_("//"), annot_item(rng, b"Route", b"/list", None, b"", fancy=False), F_("// late")],
+            [F_("// first"), F_("/*\n// @Description not this one\n// @Method(POST)\n*/"), F_("// third")],
+            [F_("/* a */"), F_("// same line", join=True), F_("/* b\n c */"), F_("/* d */", join=True), F_("// last")],
+            [F_("/*\n\n\n*/"), F_("/**/"), F_("// x"), annot_item(rng, b"Description", b"", None, b"the text", fancy=False)],
+        ]:
+            blocks.append(fixed)
+            kinds.append("cblock")
+
     ev = evaluate(blocks)
     impl, j5ans = ev["impl"], ev["j5ans"]
+    if ev["skipped"] and not a.replay:
+        i = ev["skipped"][0]
+        raise RuntimeError("generator: go/parser does not hand back the comments of a block that was taken for "
+                           "writable as a doc comment (%s): %r" % (ev["parsed"][i]["skip"], show_block(blocks[i])))
     if ev["wffail"]:
         i = ev["wffail"][0]
         raise RuntimeError("generator produced an ill-labelled block (wf_item fails): %r" % show_block(blocks[i]))
@@ -759,16 +1011,20 @@ def main():
     for i in sorted(real)[:3]:
         small = shrink(blocks[i], fails_prop_many)
         r3 = evaluate([small], "final")
+        paths = r3["path"].get(("propfail", 0), [])
+        shown = r3["parsed"][0] if paths == ["parsed-source"] else r3["impl"][0]
         res.violation({"kind": "property-fails-on-implementation", "input": show_block(small),
+                       "fails_on": [PATHS[p_] for p_ in paths],
                        "implementation_output": show_obs(r3["impl"][0]),
-                       "claim": claim_of(small, r3["impl"][0]),
+                       "implementation_output_parsed_source": show_parsed(r3["parsed"][0]),
+                       "claim": claim_of(small, shown),
                        "f7_class": f7_class(small)})
 
     disagree = [i for i in ev["disagree"]]
     if not real and disagree:
         # the model no longer describes the code: look harder for an input on which the property fails
         extra, ek = [], []
-        for kind, n in [("line", 1500), ("block", 900), ("malformed", 300), ("free1", 300)]:
+        for kind, n in [("line", 1500), ("block", 900), ("malformed", 300), ("free1", 300), ("cblock", 600)]:
             for _ in range(n):
                 extra.append(gen_block(rng, kind))
         r4 = evaluate(extra, "widen")
@@ -777,12 +1033,17 @@ def main():
             small = shrink(extra[pf[0]], fails_prop_many)
             r5 = evaluate([small], "final")
             res.violation({"kind": "property-fails-on-implementation", "input": show_block(small),
-                           "implementation_output": show_obs(r5["impl"][0]), "claim": claim_of(small, r5["impl"][0])})
+                           "fails_on": [PATHS[p_] for p_ in r5["path"].get(("propfail", 0), [])],
+                           "implementation_output": show_obs(r5["impl"][0]),
+                           "implementation_output_parsed_source": show_parsed(r5["parsed"][0]),
+                           "claim": claim_of(small, r5["impl"][0])})
         else:
             small = shrink(blocks[disagree[0]], fails_agree_many)
             r5 = evaluate([small], "final")
             res.violation({"kind": "correspondence", "obligation": "corr:Annot.model_obs (parse_line / holder / description)",
                            "input": show_block(small), "implementation_output": show_obs(r5["impl"][0]),
+                           "disagrees_on": [PATHS[p_] for p_ in r5["path"].get(("disagree", 0), [])],
+                           "implementation_output_parsed_source": show_parsed(r5["parsed"][0]),
                            "note": "model and implementation disagree on %d of %d blocks; the property oracle found no "
                                    "failing input in %d + %d blocks" % (len(disagree), len(blocks), len(blocks), len(extra))},
                           no_input=True)
@@ -808,7 +1069,12 @@ def main():
                 "nested JSON5 with braces/parentheses/commas/'})' inside strings and comments, multibyte descriptions, "
                 "\\s and unicode white space as separators/trailers), single free/near-miss lines, blocks of 0-11 "
                 "lines interleaving both (leading free text, @Description, empty comments), a malformed stream "
-                "(broken JSON5, byte-level mutations) and correspondence-only lines (leading white space); "
+                "(broken JSON5, byte-level mutations) and correspondence-only lines (leading white space); JSON5 keys in "
+                "lower, upper and mixed case incl. keys of one object that differ in case only; blocks with general "
+                "comments /* */ (one line, several lines, annotation-shaped lines inside, the next comment on the same "
+                "source line); every block that can be written as a doc comment is ALSO written into a Go source text "
+                "(doc comment of a method, type, struct field or constant), parsed with go/parser and mapped by "
+                "gast.MapDocListToCommentBlock / GetCommentsFromNode, and judged by the same model and oracle; "
                 "non-trivial = the implementation returned at least one attribute or an error; distinct = distinct "
                 "byte-exact blocks",
         "samples": [{"input": show_block(blocks[i]), "implementation": show_obs(impl[i])}
@@ -817,6 +1083,24 @@ def main():
         "disagreements": len(disagree), "property_oracle_failures": len(propfail),
         "property_oracle_failures_in_known_class_F7": len(known_hits),
         "oracle_evaluated_on_blocks": sum(1 for b in blocks if oracle_applicable(b)),
+        "parsed_source_path": {
+            "what": PATHS["parsed-source"] + "; judged by the same model and oracle as the hand-built list",
+            "blocks": sum(1 for p_ in ev["parsed"] if p_ is not None and "skip" not in p_),
+            "not_writable_as_a_doc_comment": sum(1 for p_ in ev["parsed"] if p_ is None),
+            "identical_to_hand_built_path": sum(1 for p_, o in zip(ev["parsed"], impl) if p_ is not None and "skip" not in p_ and
+                                                all(p_[k_] == o[k_] for k_ in ("err", "attrs", "frees", "description"))),
+            "blocks_with_a_general_comment": sum(1 for b, p_ in zip(blocks, ev["parsed"]) if p_ is not None and
+                                                 any(it["raw"].startswith(b"/*") for it in b)),
+            "blocks_with_a_multi_line_general_comment": sum(1 for b, p_ in zip(blocks, ev["parsed"]) if p_ is not None and
+                                                            any(it["raw"].startswith(b"/*") and b"\n" in it["raw"] for it in b)),
+            "multi_line_general_comment_in_the_leading_free_run_followed_by_free_text":
+                sum(1 for b, p_ in zip(blocks, ev["parsed"]) if p_ is not None and lead_multiline(b)),
+            "comments_sharing_a_source_line": sum(1 for b, p_ in zip(blocks, ev["parsed"]) if p_ is not None
+                                                  for it in b if it.get("join")),
+            "declaration_kinds": {d: sum(1 for b, p_ in zip(blocks, ev["parsed"]) if p_ is not None and
+                                         source_spec(b)["decl"] == d) for d in sorted(set(DECLS))},
+        },
+        "json5_top_level_keys": key_stats(blocks),
         "json5_oracle_texts": len(j5ans), "json5_oracle_errors": sum(1 for v in j5ans.values() if v is None),
         "input_distribution": {"block_kinds": kindc, "lines_per_block": sizes, "matcher_branch_per_line": tagc,
                                "lines_with_non_ascii_bytes": nonascii,
@@ -826,7 +1110,8 @@ def main():
     res.assumptions += [
         "titanous/json5 is an oracle: the harness applies the real json5.Unmarshal to the exact bytes of the model's group 3",
         "Go regexp leftmost-first semantics are modelled by the hand-written scanner Annot.match_text (validated by this "
-        "correspondence run); comment text arrives as gast.CommentNode{Text, Index = position} as MapDocListToCommentBlock builds it",
+        "correspondence run); go/parser (ParseComments) is trusted to hand over the comments of a doc comment group as "
+        "written (the harness checks that it does, for every block)",
     ]
     sys.exit(res.finish())
 
